@@ -172,6 +172,13 @@ def build(node, env=None, path='r'):
     ds = build(node['in'], env, path + '.0')
     if op == 'map':
         i = node['fn']
+        if node.get('nested'):
+            # the user function itself runs a small lazy_dataset pipeline (a loader that batches its own chunks):
+            # same result as the plain function, computed through a nested dataset
+            def nested(x, i=i):
+                inner = lazy_dataset.new([x, x]).map(functools.partial(progs.f_wrap, i))
+                return list(inner.prefetch(1, 1) if node['nested'] == 'prefetch' else inner)[1]
+            return done(ds.map(env.fn(path, nested)))
         return done(ds.map(env.fn(path, functools.partial(progs.f_wrap, i))))
     if op == 'parmap':
         i = node['fn']
